@@ -295,6 +295,8 @@ func (c08Engine) Execute(raw json.RawMessage, prop string) (*core.Result, error)
 		gnX       uint64
 		gnV0      int
 		waited    bool
+		// model mutation of the operation in flight: takes effect when the task releases its write lock
+		commit func()
 	}
 	ntasks := sc.Tasks
 	for _, st := range sc.Steps {
@@ -376,13 +378,20 @@ func (c08Engine) Execute(raw json.RawMessage, prop string) (*core.Result, error)
 				}
 				msgs[k] = Message{Id: robust.Id{Id: id, Reply: uint64(k + 1)}, Data: fmt.Sprintf("m%d.%d", id, k+1), InterestingFor: rc}
 			}
-			if err := o.Add(msgs); err != nil {
+			lastAdded = id
+			ti.commit = func() {
+				model.present[id] = msgs
+				addedEver[modelKey{model, id}] = msgs
+				model.snap()
+			}
+			err := o.Add(msgs)
+			if ti.commit != nil { // set-up phase (no scheduler, no yield)
+				ti.commit()
+				ti.commit = nil
+			}
+			if err != nil {
 				violate("add-error", "add-error", err.Error())
 			}
-			lastAdded = id
-			model.present[id] = msgs
-			addedEver[modelKey{model, id}] = msgs
-			model.snap()
 			tr.Log("add %d", id)
 			res.Add("adds", 1)
 		case "del", "del-oldest":
@@ -397,25 +406,47 @@ func (c08Engine) Execute(raw json.RawMessage, prop string) (*core.Result, error)
 			if id == 0 {
 				return
 			}
-			if err := o.Delete(robust.Id{Id: id}); err != nil {
-				violate("delete-error", "delete-error", err.Error())
-			}
-			if _, ok := model.present[id]; ok {
-				delete(model.present, id)
-				model.snap()
-				res.Add("deletes_existing", 1)
-				if id == lastAdded {
-					res.Add("deletes_tail", 1)
+			ti.commit = func() {
+				if _, ok := model.present[id]; ok {
+					delete(model.present, id)
+					model.snap()
+					res.Add("deletes_existing", 1)
+					if id == lastAdded {
+						res.Add("deletes_tail", 1)
+					}
+				} else {
+					res.Add("deletes_nonexisting", 1)
 				}
-			} else {
-				res.Add("deletes_nonexisting", 1)
+			}
+			err := o.Delete(robust.Id{Id: id})
+			if ti.commit != nil {
+				ti.commit()
+				ti.commit = nil
+			}
+			if err != nil {
+				violate("delete-error", "delete-error", err.Error())
 			}
 			tr.Log("del %d", id)
 		case "get":
+			v0 := len(model.versions) - 1
 			got, ok := o.Get(robust.Id{Id: st.ID})
-			want, has := model.present[st.ID]
-			if ok != has || (ok && !sameBatch(got, want)) {
-				violate("get-mismatch", "get-mismatch", fmt.Sprintf("Get(%d) = %v,%v; model has %v,%v", st.ID, got, ok, want, has))
+			// the answer is right if it was right at some instant of the call
+			fits := false
+			for v := v0; v < len(model.versions) && !fits; v++ {
+				has := false
+				for _, id := range model.versions[v] {
+					if id == st.ID {
+						has = true
+					}
+				}
+				fits = has == ok
+			}
+			want, _ := allAdded(model, st.ID)
+			if st.ID == 0 {
+				want = model.present[0]
+			}
+			if !fits || (ok && want != nil && !sameBatch(got, want)) {
+				violate("get-mismatch", "get-mismatch", fmt.Sprintf("Get(%d) = %v,%v; model (versions %d..%d) has %v", st.ID, got, ok, v0, len(model.versions)-1, want))
 			}
 			tr.Log("get %d %v", st.ID, ok)
 			res.Add("gets", 1)
@@ -452,6 +483,14 @@ func (c08Engine) Execute(raw json.RawMessage, prop string) (*core.Result, error)
 
 	s := simsync.NewSched()
 	defer s.Close()
+	byTask := map[*simsync.Task]*taskInfo{}
+	simsync.OnWriteRelease = func(t *simsync.Task) {
+		if ti := byTask[t]; ti != nil && ti.commit != nil {
+			ti.commit()
+			ti.commit = nil
+		}
+	}
+	defer func() { simsync.OnWriteRelease = nil }()
 	tasks := make([]*simsync.Task, len(infos))
 	for i, ti := range infos {
 		ti := ti
@@ -460,6 +499,7 @@ func (c08Engine) Execute(raw json.RawMessage, prop string) (*core.Result, error)
 				doOp(ti, st)
 			}
 		})
+		byTask[tasks[i]] = ti
 	}
 
 	nontrivial := false
